@@ -116,7 +116,13 @@ func (c *srvBinComp) Exec(t []string) (extra []string, out string, eff bool) {
 			// the library client always sends an array; keep the op a no-op on both sides
 			return []string{"#skipped"}, "noop", false
 		}
-		return []string{"noinv=1"}, c.call(Untok(t[1]), params, has), false
+		o := c.call(Untok(t[1]), params, has)
+		if o == "result" || o == "err Internal" {
+			// over the real binary a well-formed call is carried out; whether the service then answers with a result
+			// or with an application error (a failed verification, say) is not the RPC layer's business
+			o = "ran"
+		}
+		return []string{"noinv=1"}, o, false
 	}
 	return nil, "bad-op", false
 }
